@@ -165,7 +165,11 @@ func runC06(c *Check) {
 		}
 		cd := normCond(iff.Cond)
 		truth := (br == 0) != cd.Neg
-		return truth && cd.V != nil && inlineMembership(iff, cd.V, elem, fromSnapshot)
+		if truth && cd.V != nil && inlineMembership(iff, cd.V, elem, fromSnapshot) {
+			return true
+		}
+		// `indexOf(conflict, unconfirmed) >= 0`
+		return indexMembership(iff, br, elem, fromSnapshot)
 	}
 	for _, u := range upd {
 		ok, w := mustPass(u.Instr, member)
@@ -195,23 +199,21 @@ func runC06(c *Check) {
 			// R5: exits reachable from the branch before returning to the conflict loop header are error returns
 			okExit := true
 			var wit []string
-			seen := map[*ssa.BasicBlock]bool{}
-			q := []*ssa.BasicBlock{b.Succs[br]}
-			for len(q) > 0 {
-				x := q[0]
-				q = q[1:]
-				if seen[x] || x == h {
-					continue
+			steps := 0
+			explore([]walkNode{mkNode(b, b.Succs[br])}, func(n walkNode) bool {
+				steps++
+				if steps > 2000 || n.b == h {
+					return false
 				}
-				seen[x] = true
-				if isExitBlock(x) && !isErrorReturnBlock(x) {
-					okExit = false
-					wit = []string{"non-error exit at " + c.P.Pos(lastPos(x))}
+				if isExitBlock(n.b) {
+					if !isErrorReturnBlock(n.b) && !errorReturnOnPath(n) {
+						okExit = false
+						wit = []string{"non-error exit at " + c.P.Pos(lastPos(n.b))}
+					}
+					return false
 				}
-				for _, s := range x.Succs {
-					q = append(q, s)
-				}
-			}
+				return true
+			})
 			c.Decide(okExit, "R5", key+"#only-error-exits", ifPos(iff), "cfg-structure", wit,
 				"the cancel branch leaves block processing only through error returns", "the cancel branch can end block processing with a non-error return: the block would not be processed normally")
 		}
@@ -222,6 +224,7 @@ func runC06(c *Check) {
 	c.ruleConflictingRemovesEach("R4")
 	c.ruleSelfSkipPolarity("R10")
 	c.ruleAddingNeverEvicts("R11")
+	c.ruleSpenderListExtendsItsOwn("R12")
 	c.ruleLoopVisitsAll("R9", "spynode.(*Node).ProcessBlock", isConfl, "conflicting-tx",
 		"the loop over the conflicting txs can be left early without an error (break): the conflicts after that point get no cancelled update although they were evicted from double-spend tracking")
 
